@@ -160,7 +160,7 @@ class Report:
     def finish(self, level: str = "other", write: bool = True) -> int:
         if not write:
             return self.code()
-        ev_dir = os.path.join(VERIF, "evidence")
+        ev_dir = os.environ.get("TPSA_EVIDENCE_DIR") or os.path.join(VERIF, "evidence")  # (a scratch tree given with --repo reports into a scratch directory)
         os.makedirs(os.path.join(ev_dir, "replay"), exist_ok=True)
         viol, known, inc = self.violations(), self.known_hits(), self.inconclusive()
         # replay files
